@@ -86,7 +86,7 @@ func c09shutdown(out *rec.Out, idx int, rng *rec.Rng, tier string, stats map[str
 	blocked := ""
 	select {
 	case <-sent:
-	case <-time.After(5 * time.Second):
+	case <-time.After(20 * time.Second): // (generous: the machine may be busy; a deadlock stays one)
 		blocked = "senders"
 	}
 	if cancelAt >= nSend*per {
@@ -97,7 +97,7 @@ func c09shutdown(out *rec.Out, idx int, rng *rec.Rng, tier string, stats map[str
 		go func() { wgSub.Wait(); close(closed) }()
 		select {
 		case <-closed:
-		case <-time.After(5 * time.Second):
+		case <-time.After(20 * time.Second):
 			blocked = "subscribers"
 		}
 	}
